@@ -111,6 +111,23 @@ Hash(msg) == DigestOf(HashWords(msg))
 DigestBytes(d) == [i \in 1..32 |-> IF i % 2 = 1 THEN d[(i + 1) \div 2] \div 256 ELSE d[i \div 2] % 256]
 
 -----------------------------------------------------------------------------
+(* Long messages.  TLC cannot hash its way to 2^29 or 2^32 bytes, but the part of the algorithm that depends on the
+   byte count - the padding and the 64-bit length field - can be evaluated from any intermediate hash value: for a
+   message M = P \o tail with Len(P) = cnt a multiple of 64 and S the intermediate hash value after P,
+   Hash(M) = HashFrom(S, cnt, tail).  Byte counts are four 16-bit limbs, most significant first (TLC integers are
+   32 bits wide); the length field is 8 * (cnt + Len(tail)) modulo 2^64.                                          *)
+LimbAdd(c, k) ==                                  \* c + k for 0 <= k < 2^16
+  LET s4 == c[4] + k
+      s3 == c[3] + (s4 \div 65536)
+      s2 == c[2] + (s3 \div 65536)
+      s1 == c[1] + (s2 \div 65536)
+  IN <<s1 % 65536, s2 % 65536, s3 % 65536, s4 % 65536>>
+LimbsTimes8(c) == [i \in 1..4 |-> ((c[i] * 8) % 65536) + (IF i < 4 THEN c[i + 1] \div 8192 ELSE 0)]
+LimbBytes(c) == [i \in 1..8 |-> IF i % 2 = 1 THEN c[(i + 1) \div 2] \div 256 ELSE c[i \div 2] % 256]
+PadTailFrom(cnt, n) == <<128>> \o Zeros(PadZeros(n, 64, 8)) \o LimbBytes(LimbsTimes8(LimbAdd(cnt, n)))
+HashFrom(S, cnt, tail) == DigestOf(FoldLeft(Compress, S, Blocks(tail \o PadTailFrom(cnt, Len(tail)), 64)))
+
+-----------------------------------------------------------------------------
 (* HMAC, RFC 2104 section 2 with H = SHA-256, B = 64                                                            *)
 HmacKey0(key) == LET k == IF Len(key) > 64 THEN DigestBytes(Hash(key)) ELSE key
                  IN k \o Zeros(64 - Len(k))
@@ -135,4 +152,7 @@ ASSUME Pad(<<97, 98, 99>>, 64, 8) = <<97, 98, 99, 128>> \o Zeros(52) \o <<0, 0, 
 \* FIPS 180-4 / NIST example "abc"
 ASSUME Hash(<<97, 98, 99>>) = <<\Hba78, \H16bf, \H8f01, \Hcfea, \H4141, \H40de, \H5dae, \H2223,
                                 \Hb003, \H61a3, \H9617, \H7a9c, \Hb410, \Hff61, \Hf200, \H15ad>>
+\* the long-message form agrees with the plain one where both apply
+ASSUME HashFrom(H0, <<0, 0, 0, 0>>, <<97, 98, 99>>) = Hash(<<97, 98, 99>>)
+ASSUME LimbBytes(LimbsTimes8(LimbAdd(<<0, 0, 8191, 65472>>, 64))) = <<0, 0, 0, 1, 0, 0, 0, 0>>      \* 2^29 bytes = 2^32 bits
 =============================================================================
